@@ -223,6 +223,9 @@ def _model_pair(op, a, b, mode, tzm):
     r = C._general_pair(op, a, b, mode, tzm)
     if r == ('error', 'XPTY0004') and op in ('eq', 'ne'):
         return ('bool', op == 'ne'), 'missing-XPTY0004'
+    m = _as_double_compare(op, a, b)
+    if m is not None and r != ('bool', m):
+        return ('bool', m), 'float-carried-as-double'     # xs:float against integer/decimal compared as doubles
     return r, None
 
 
